@@ -65,6 +65,23 @@ EDIT_KINDS = [
 ]
 
 
+def default_looking(rnd, m, L, pos, prefix, count, existing):
+    """in a list add with a NULL (default-named) entry followed by an explicit one, sometimes give the explicit entry exactly the
+    name the library would generate for the NULL entry (prefix + index+1): the call is valid and the explicit name has to be kept.
+    Only when every existing name is known to the model (no earlier default names) and the name is unused."""
+    if rnd.random() > 0.3 or any(n is None for n in existing):
+        return L
+    for t in range(1, len(L)):
+        if L[t - 1][pos] is None and L[t][pos] is not None:
+            cand = "%s%d" % (prefix, count + t)       # default name of entry t-1
+            if cand not in existing and all(e[pos] != cand for e in L):
+                e = list(L[t])
+                e[pos] = cand
+                L[t] = tuple(e)
+                break
+    return L
+
+
 def rnd_edit(rnd, m, nm, grow=0.5, kinds=None):
     """one valid edit for model m, or None if the drawn kind is impossible now.  grow in [0,1] biases add vs delete."""
     kinds = kinds or EDIT_KINDS
@@ -94,15 +111,16 @@ def rnd_edit(rnd, m, nm, grow=0.5, kinds=None):
         anynone = rnd.random() < 0.2
         for _ in range(rnd.randint(1, 3)):
             lo, up = bounds(rnd)
-            L.append((val(rnd), lo, up, None if anynone else nm.col(rnd, 0), ents(rnd, nr, maxn=nm.maxn)))
-        return ("add_cols", L)
+            L.append((val(rnd), lo, up, None if (anynone or rnd.random() < 0.2) else nm.col(rnd, 0), ents(rnd, nr, maxn=nm.maxn)))
+        return ("add_cols", default_looking(rnd, m, L, 3, "x", m.ncols, [c.name for c in m.cols]))
     if k == "new_row":
         return ("new_row", val(rnd), rnd.choice("LGE"), nm.row(rnd))
     if k == "add_row":
         return ("add_row", val(rnd), rnd.choice("LGE"), nm.row(rnd), ents(rnd, nc, maxn=nm.maxn))
     if k == "add_rows":
-        anynone = rnd.random() < 0.2
-        return ("add_rows", [(val(rnd), rnd.choice("LGE"), None if anynone else nm.row(rnd, 0), ents(rnd, nc, maxn=nm.maxn)) for _ in range(rnd.randint(1, 3))])
+        anynone = rnd.random() < 0.15
+        L = [(val(rnd), rnd.choice("LGE"), None if (anynone or rnd.random() < 0.2) else nm.row(rnd, 0), ents(rnd, nc, maxn=nm.maxn)) for _ in range(rnd.randint(1, 3))]
+        return ("add_rows", default_looking(rnd, m, L, 2, "c", m.nrows, [r.name for r in m.rows]))
     if k == "add_ranged_row":
         return ("add_ranged_row", val(rnd), "R", abs(val(rnd)), nm.row(rnd), ents(rnd, nc, maxn=nm.maxn))
     if k == "add_ranged_rows":
@@ -111,8 +129,8 @@ def rnd_edit(rnd, m, nm, grow=0.5, kinds=None):
         for _ in range(rnd.randint(1, 3)):
             s = rnd.choice("LGER R")
             s = "R" if s == " " else s
-            L.append((val(rnd), s, abs(val(rnd)) if s == "R" else F(0), None if anynone else nm.row(rnd, 0), ents(rnd, nc, maxn=nm.maxn)))
-        return ("add_ranged_rows", L)
+            L.append((val(rnd), s, abs(val(rnd)) if s == "R" else F(0), None if (anynone or rnd.random() < 0.2) else nm.row(rnd, 0), ents(rnd, nc, maxn=nm.maxn)))
+        return ("add_ranged_rows", default_looking(rnd, m, L, 3, "c", m.nrows, [r.name for r in m.rows]))
     if k == "delete_row":
         return ("delete_row", rnd.randrange(nr)) if nr else None
     if k == "delete_rows":
